@@ -216,10 +216,7 @@ func enumWorker(tier, slice, outf string) {
 			count = enumRangeSets - jobs[j].rs0
 		}
 		c := runEnumBlock(e, "p/tables/t", jobs[j].rs0, count, limits, jobs[j].en.name)
-		func() {
-			defer func() { _ = recover() }()
-			e.v.Close()
-		}()
+		closeEmu(e)
 		cleanup()
 		b, _ := json.Marshal(struct {
 			Job  int       `json:"job"`
